@@ -8,6 +8,7 @@ import (
 	"encoding/binary"
 	"encoding/json"
 	"fmt"
+	"sort"
 	"strings"
 
 	"github.com/nspcc-dev/neo-go/pkg/config"
@@ -167,9 +168,24 @@ func effectOracle(o *hx.Out, k int, what, keySuffix string, f callflag.CallFlag,
 
 // sweepSyscalls: entry(All) → proxy.s<i> requested F, for all F.
 func (w *world) sweepSyscalls(o *hx.Out, k int) {
-	for _, name := range w.noArgs {
-		o.Count("sweep:syscall-without-dummy-args")
+	var unknown []string
+	for name := range w.probes {
+		unknown = append(unknown, name)
+	}
+	sort.Strings(unknown)
+	for _, name := range unknown {
+		// not in the harness's argument table (so not in the expectation table either): the model line says so, and
+		// the oracle probes it on every known argument template
+		o.Count("sweep:syscall-unknown-to-harness")
 		o.Line("sysflags "+name, "no-dummy-arguments-in-harness")
+		for _, method := range w.probes[name] {
+			for F := 0; F < 16; F++ {
+				bw := io.NewBufBinWriter()
+				emit.AppCall(bw.BinWriter, w.proxy.Hash, method, callflag.CallFlag(F))
+				r := w.run(bw.Bytes(), callflag.All)
+				effectOracle(o, k, "unclassified syscall "+name+" (probe "+method+")", "", callflag.CallFlag(F), r, nestedBelow(r.tree, 2))
+			}
+		}
 	}
 	for _, f := range linkedInterops() {
 		sm, ok := w.sys[f.Name]
@@ -423,4 +439,3 @@ func (w *world) sweepNatives(o *hx.Out, k int) {
 		}
 	}
 }
-
